@@ -342,6 +342,34 @@ theorem inv_run {s : St} (hinv : Inv s) : ∀ sched, Inv (run s sched)
     | none => simpa using inv_run hinv is
     | some s' => simpa using inv_run (inv_step hinv h) is
 
+/-! ### mutual exclusion from the invariant -/
+
+/-- a thread inside an exclusive section of `m` excludes every other thread from `m` -/
+theorem excl_alone {s : St} (hinv : Inv s) {m : Nat} {i j : Nat} (hij : i ≠ j) {ti tj : Thread}
+    (hti : s.thr[i]? = some ti) (htj : s.thr[j]? = some tj) {k : LockKind}
+    (hi : holds m .exclusive ti = true) (hj : holds m k tj = true) (hk : k ≠ .none) : False := by
+  have hpos := countP_pos_of_get _ _ _ _ hti hi
+  cases hw : (s.mtx m).writer with
+  | false => have := hinv.wr0 m hw; omega
+  | true =>
+    obtain ⟨h1, h0⟩ := hinv.wr1 m hw
+    cases k with
+    | none => exact hk rfl
+    | exclusive => have := two_le_countP _ _ _ _ _ _ hij hti htj hi hj; omega
+    | shared =>
+      have := countP_pos_of_get _ _ _ _ htj hj
+      have := hinv.readers m
+      omega
+
+theorem holds_of_inside {t : Thread} {sec : Section} (hin : t.inside = true)
+    (hh : t.todo.head? = some sec) : holds sec.mtx sec.mode t = true := by
+  cases htd : t.todo with
+  | nil => simp [htd] at hh
+  | cons x rest =>
+    simp only [htd, List.head?_cons, Option.some.injEq] at hh
+    subst hh
+    simp [holds, hin, htd]
+
 /-! ### the programs only shrink -/
 
 /-- every remaining section of thread `i` in `s` is a section of its program -/
